@@ -142,6 +142,7 @@ def adapt_sequences(n):
     Spec: a call is legal iff all named scenarios are still un-adapted; it moves them into one new block."""
     out = []
     groups = [g for r in range(1, n + 1) for g in itertools.combinations(range(n), r)]
+    groups += [(0, 0), (1, 0, 1)][:1 if n < 2 else 2]          # a scenario named twice in one declaration: illegal as a whole
     seqs = [()]
     for depth in range(1, 4):
         seqs += list(itertools.product(groups, repeat=depth))
@@ -154,7 +155,7 @@ def adapt_sequences(n):
                 for g in seq:
                     arg = [labels[i] if labels else i for i in g]
                     arg = arg[0] if len(arg) == 1 else arg
-                    legal = set(g) <= set(rest)
+                    legal = set(g) <= set(rest) and len(set(g)) == len(g)
                     before = [list(b) for b in x.event_adapt]
                     try:
                         x.adapt(arg)
@@ -164,9 +165,11 @@ def adapt_sequences(n):
                     if raised != (not legal):
                         return f"sequence {seq}: adapt({arg}) raised={raised} but legal={legal}; partition was {before}"
                     if raised:
-                        # an illegal call is rejected; the property does not say what the partition is afterwards,
-                        # so the sequence ends here
-                        break
+                        # an illegal call is rejected and declares nothing: every scenario still belongs to exactly one event
+                        # (a half-applied declaration would leave scenarios in no event at all)
+                        if not is_partition(x.event_adapt, n) or sorted(map(sorted, x.event_adapt)) != sorted(map(sorted, before)):
+                            return f"sequence {seq}: rejected adapt({arg}) changed the partition {before} into {x.event_adapt}"
+                        continue
                     rest = [i for i in rest if i not in g]
                     blocks.append(list(g))
                     want = ([rest] if rest else []) + blocks
